@@ -333,12 +333,23 @@ class SpawnProcess(multiprocessing.context.SpawnProcess):
         assert exitcode == 0
         return self._mpservice_exitcode_
 
+    def _join_process_(self, timeout=None):
+        super().join(timeout)
+        if self.exitcode is None and multiprocessing.connection.wait(
+            [self.sentinel], 0
+        ):
+            # The child has exited, but another thread (e.g. the result collector
+            # polling ``exitcode``) reaped it while we were waiting and is about
+            # to publish the exit code. This is not a timeout.
+            while self.exitcode is None:
+                time.sleep(0.001)
+
     def join(self, timeout=None):
         """
         Same behavior as the standard lib, except that if the process
         terminates with an exception, the exception is raised.
         """
-        super().join(timeout=timeout)
+        self._join_process_(timeout)
         if not self.done():
             # timed out
             return
@@ -386,7 +397,7 @@ class SpawnProcess(multiprocessing.context.SpawnProcess):
         """
         Behavior is similar to ``concurrent.futures.Future.exception``.
         """
-        super().join(timeout)
+        self._join_process_(timeout)
         if not self.done():
             raise TimeoutError
         self._result_collector_thread_.join()
